@@ -1,19 +1,27 @@
 (* C11: the concrete system - one NTS client (net/ntske/fetcher.go, net/nts/nts.go as
    used by core/client), the NTS-KE server (core/server/ntske.go) and the NTP server's
    NTS branch (core/server/server_ip.go, server_scion.go) sharing one key provider
-   (net/ntske/provider.go, modelled in Model/Provider.v).  Every call is made of
+   (net/ntske/provider.go: Current and Get are Section variables here; Proofs/CookieSystemC12.v
+   puts the model of C12, Model/Provider.v, in their place).  Every call is made of
    the very functions the check executes on the observed datagrams (Model/CookiePool.v:
    fetch, client_request, server_reply, client_process, store).  No proofs here.
 
    Time is a parameter of every call (the provider reads time.Now()).  AES-SIV, the
    sealing of server cookies (ServerCookie.EncryptWithNonce / EncryptedServerCookie.Decrypt,
    the subject of C10 and C14) and the TLS exporter keys are Section variables. *)
-From ST Require Import Base.Ints Base.Bytes Model.CookiePool Model.Provider.
+From ST Require Import Base.Ints Base.Bytes Model.CookiePool.
 From Coq Require Import ZArith List Bool Lia.
 Import ListNotations.
 Open Scope Z_scope.
 
+(* a server key as far as cookies are concerned: Key.ID and Key.Value *)
+Record skey := { sk_id : Z; sk_val : Z }.
+
 Section System.
+(* the key provider: its state, Current() and Get(id) at a clock reading; None = panic *)
+Variable pstate : Type.
+Variable pcurrent : pstate -> Z -> option (skey * pstate).
+Variable pget : pstate -> Z -> Z -> option skey.
 Variable seal : bytes -> bytes -> bytes -> bytes -> bytes.
 Variable aopen : bytes -> bytes -> bytes -> bytes -> option bytes.
 (* the cookie the server makes for session keys (c2s, s2c) under key (id, value) with its n-th nonce *)
@@ -24,7 +32,7 @@ Variable cookie_keyid : bytes -> Z.
 Variable open_cookie : Z -> bytes -> option (bytes * bytes).
 
 Record server := {
-  sv_prov : Provider.state;   (* the key provider *)
+  sv_prov : pstate;   (* the key provider *)
   sv_next : nat               (* nonces used so far *)
 }.
 
@@ -52,22 +60,22 @@ Record cop := {
 }.
 
 (* n cookies under the provider's current key: key := provider.Current(); EncryptWithNonce n times *)
-Definition make_cookies (k : Provider.key) (from : nat) (kc2s ks2c : bytes) (n : nat) : list bytes :=
-  map (fun i => mk_cookie (k_id k) (k_val k) i kc2s ks2c) (seq from n).
+Definition make_cookies (k : skey) (from : nat) (kc2s ks2c : bytes) (n : nat) : list bytes :=
+  map (fun i => mk_cookie (sk_id k) (sk_val k) i kc2s ks2c) (seq from n).
 
 (* what one call shows: the observation the property oracle judges *)
 Record cobs := {
   ob_sent : option bytes;                  (* the request datagram *)
   ob_rekeyed : bool;
   ob_openable : bool;                      (* the server could open the request's cookie *)
-  ob_reply : option (bytes * list bytes * Provider.key);  (* reply, the cookies in it, the provider's current key *)
+  ob_reply : option (bytes * list bytes * skey);  (* reply, the cookies in it, the provider's current key *)
   ob_intact : bool;
   ob_nosend : bool
 }.
 
 (* the NTS-KE exchange (core/server/ntske.go newNTSKEMsg): eight cookies under the current key *)
 Definition key_exchange (sv : server) (now : Z) (keys : bytes * bytes) : option (ke_result * server) :=
-  match current (sv_prov sv) now now with
+  match pcurrent (sv_prov sv) now with
   | None => None                                                 (* panic("ID overflow") *)
   | Some (k, p') =>
       Some (KeOk (make_cookies k (sv_next sv) (fst keys) (snd keys) keCookies) (fst keys) (snd keys),
@@ -76,18 +84,18 @@ Definition key_exchange (sv : server) (now : Z) (keys : bytes * bytes) : option 
 
 (* the NTP server on an NTS request: open the first cookie under provider.Get(its key id), then server_reply *)
 Definition ntp_server (sv : server) (now : Z) (req rnonce rhdr : bytes)
-  : option (option (bytes * list bytes * Provider.key) * server) :=
+  : option (option (bytes * list bytes * skey) * server) :=
   match decode_packet req with
   | Ok dq =>
       match d_cookies dq with
       | c :: _ =>
-          match get (sv_prov sv) (cookie_keyid c) now with
+          match pget (sv_prov sv) (cookie_keyid c) now with
           | None => Some (None, sv)                               (* "failed to get key" *)
           | Some key =>
-              match open_cookie (k_val key) c with
+              match open_cookie (sk_val key) c with
               | None => Some (None, sv)                           (* "failed to decrypt cookie" *)
               | Some (kc2s, ks2c) =>
-                  match current (sv_prov sv) now now with
+                  match pcurrent (sv_prov sv) now with
                   | None => None
                   | Some (cur, p') =>
                       (* the cookies are made before the reply is built: count them from the result *)
@@ -104,6 +112,50 @@ Definition ntp_server (sv : server) (now : Z) (req rnonce rhdr : bytes)
       | [] => Some (None, sv)
       end
   | _ => Some (None, sv)
+  end.
+
+(* the part of a call after FetchData returned d (c1 = the fetcher afterwards) *)
+Definition cexchange (sent0 : list bytes) (now : Z) (sv1 : server) (rekeyed : bool) (d c1 : client) (o : cop)
+  : option (csys * cobs) :=
+  match o_fate o with
+  | NoSend =>
+      Some ({| cs_client := c1; cs_server := sv1; cs_now := now; cs_sent := sent0 |},
+            {| ob_sent := None; ob_rekeyed := rekeyed; ob_openable := false; ob_reply := None;
+               ob_intact := false; ob_nosend := true |})
+  | f =>
+      match client_request seal d (o_uid o) (o_nonce o) (o_hdr o), pool d with
+      | Ok req, c :: _ =>
+          let sent := c :: sent0 in
+          match f with
+          | LoseRequest =>
+              Some ({| cs_client := c1; cs_server := sv1; cs_now := now; cs_sent := sent |},
+                    {| ob_sent := Some req; ob_rekeyed := rekeyed; ob_openable := false; ob_reply := None;
+                       ob_intact := false; ob_nosend := false |})
+          | _ =>
+              match ntp_server sv1 now req (o_rnonce o) (o_rhdr o) with
+              | None => None
+              | Some (None, sv2) =>
+                  Some ({| cs_client := c1; cs_server := sv2; cs_now := now; cs_sent := sent |},
+                        {| ob_sent := Some req; ob_rekeyed := rekeyed; ob_openable := false; ob_reply := None;
+                           ob_intact := false; ob_nosend := false |})
+              | Some (Some (reply, cs, cur), sv2) =>
+                  let c2 := match f with
+                            | Deliver => match client_process aopen reply (s2c d) (o_uid o) c1 with
+                                         | Ok c2 => Some c2
+                                         | _ => None
+                                         end
+                            | _ => None
+                            end in
+                  Some ({| cs_client := match c2 with Some x => x | None => c1 end;
+                           cs_server := sv2; cs_now := now; cs_sent := sent |},
+                        {| ob_sent := Some req; ob_rekeyed := rekeyed; ob_openable := true;
+                           ob_reply := Some (reply, cs, cur);
+                           ob_intact := match c2 with Some _ => true | None => false end;
+                           ob_nosend := false |})
+              end
+          end
+      | _, _ => None
+      end
   end.
 
 (* one call of the client; None: a panic (provider id overflow, request that cannot be encoded) *)
@@ -127,47 +179,7 @@ Definition cstep (s : csys) (o : cop) : option (csys * cobs) :=
           Some ({| cs_client := fetch_failed; cs_server := sv1; cs_now := now; cs_sent := cs_sent s |},
                 {| ob_sent := None; ob_rekeyed := false; ob_openable := false; ob_reply := None;
                    ob_intact := false; ob_nosend := false |})
-      | Some (d, c1) =>
-          match o_fate o with
-          | NoSend =>
-              Some ({| cs_client := c1; cs_server := sv1; cs_now := now; cs_sent := cs_sent s |},
-                    {| ob_sent := None; ob_rekeyed := rekeyed; ob_openable := false; ob_reply := None;
-                       ob_intact := false; ob_nosend := true |})
-          | f =>
-              match client_request seal d (o_uid o) (o_nonce o) (o_hdr o), pool d with
-              | Ok req, c :: _ =>
-                  let sent := c :: cs_sent s in
-                  match f with
-                  | LoseRequest =>
-                      Some ({| cs_client := c1; cs_server := sv1; cs_now := now; cs_sent := sent |},
-                            {| ob_sent := Some req; ob_rekeyed := rekeyed; ob_openable := false; ob_reply := None;
-                               ob_intact := false; ob_nosend := false |})
-                  | _ =>
-                      match ntp_server sv1 now req (o_rnonce o) (o_rhdr o) with
-                      | None => None
-                      | Some (None, sv2) =>
-                          Some ({| cs_client := c1; cs_server := sv2; cs_now := now; cs_sent := sent |},
-                                {| ob_sent := Some req; ob_rekeyed := rekeyed; ob_openable := false; ob_reply := None;
-                                   ob_intact := false; ob_nosend := false |})
-                      | Some (Some (reply, cs, cur), sv2) =>
-                          let c2 := match f with
-                                    | Deliver => match client_process aopen reply (s2c d) (o_uid o) c1 with
-                                                 | Ok c2 => Some c2
-                                                 | _ => None
-                                                 end
-                                    | _ => None
-                                    end in
-                          Some ({| cs_client := match c2 with Some x => x | None => c1 end;
-                                   cs_server := sv2; cs_now := now; cs_sent := sent |},
-                                {| ob_sent := Some req; ob_rekeyed := rekeyed; ob_openable := true;
-                                   ob_reply := Some (reply, cs, cur);
-                                   ob_intact := match c2 with Some _ => true | None => false end;
-                                   ob_nosend := false |})
-                      end
-                  end
-              | _, _ => None
-              end
-          end
+      | Some (d, c1) => cexchange (cs_sent s) now sv1 rekeyed d c1 o
       end
   end.
 
@@ -184,12 +196,12 @@ Fixpoint crun (s : csys) (os : list cop) : option (csys * list cobs) :=
       end
   end.
 
-(* the start: a provider made at time t0, a client that has never exchanged keys *)
-Definition csys0 (t0 : Z) : option csys :=
-  match new_provider t0 with
-  | None => None
-  | Some p => Some {| cs_client := client0; cs_server := {| sv_prov := p; sv_next := O |};
-                      cs_now := t0; cs_sent := [] |}
-  end.
+(* the start: a provider, a client that has never exchanged keys *)
+Definition csys0 (p : pstate) (t0 : Z) : csys :=
+  {| cs_client := client0; cs_server := {| sv_prov := p; sv_next := O |}; cs_now := t0; cs_sent := [] |}.
 
 End System.
+
+Arguments sv_prov {pstate}. Arguments sv_next {pstate}.
+Arguments cs_client {pstate}. Arguments cs_server {pstate}. Arguments cs_now {pstate}. Arguments cs_sent {pstate}.
+Arguments Build_server {pstate}. Arguments Build_csys {pstate}.
